@@ -51,6 +51,8 @@ def main(argv):
     except Exception as ex:  # harness failure: inconclusive, never green
         sys.stderr.write(core.format_exc(ex))
         ctx.unsure("harness exception: %s" % " | ".join(core.format_exc(ex).strip().splitlines()[-3:])[:400])
+    from vf import steady
+    steady.report(ctx)
     core.write_shard_result(ctx, out_prefix)
     faulthandler.cancel_dump_traceback_later()
     sys.stdout.flush()
